@@ -40,6 +40,10 @@ class Lifter:
         m = c[name]
         return EnumVal(qualname, m.name, m.value)
 
+    def enum_members(self, qualname):
+        mod, _, cls = qualname.rpartition(".")
+        return list(getattr(self.module(mod), cls).__members__)
+
     def lift_global(self, I, mod, attr):
         m = self.module(mod)
         if not hasattr(m, attr):
